@@ -176,8 +176,13 @@ class Report:
                 continue
             a, b, q, chg, tot = hit[0]
             big = chg is None or chg > self.RESTRUCTURED_ABS or (chg > self.RESTRUCTURED_REL[0] and tot and chg / tot > self.RESTRUCTURED_REL[1])
+            # shape rules were confirmed against the baseline text of the function: once that text has changed at all, a
+            # mismatch says "the shape I know is gone", which is not evidence of a violation (OPTYX_LENIENT_SHAPE=1
+            # restores the earlier threshold policy for experiments)
+            if not os.environ.get("OPTYX_LENIENT_SHAPE") and (chg is None or chg > 0):
+                big = True
             if big:
-                what = "is new" if chg is None else f"was restructured ({chg} of {tot} statements changed since the confirmed baseline)"
+                what = "is new" if chg is None else f"was edited ({chg} of {tot} statements changed since the confirmed baseline)"
                 self.undecided(f"{o.rule} {o.construct} [{o.detail}]: shape rule does not match, but {q.split(':')[1]} {what}: not decided ({o.msg[:90]})")
                 o.ok = True
                 o.trivial = True
